@@ -15,6 +15,10 @@ SUFFIX_JUNK = PREFIX_JUNK + ["/* open", "/* open\n", '"open', "'open", 'def seco
 WEIGHT_BREAKS = [".5", "5.", "-1", "- 1", "1e5", "1.5.2", "+1", "1,5", "0x1", "1_0", "", "(1)", '"1"', "x"]
 
 
+# characters that render as nothing (or as a blank) but are neither white space nor token characters of the language
+INVISIBLE = ["\ufeff", "\u200b", "\u200d", "\u2060", "\u00ad", "\u200e", "\x7f", "\x08"]
+
+
 NUMBER_FORMS = ["1_0", "0x1F", "0b11", "0o7", "1e3", "1E3", "1.5e3", "1.", ".5", "1..5", "1.5.", "01.5.0", "1,5", "+1", "1j", "1L", "1f",
                 "0.5f", "1/2", "50%", "$5", "1 000", "NaN", "inf", "-inf", "1.5e", "0x", "\u0661", "\uff11", "1\u00b2"]
 STRING_FORMS = ['r"x"', 'f"x"', 'b"x"', 'u"x"', '"""x"""', "\'\'\'x\'\'\'", "`x`", '"x', "x\"", "'x", '"a\\"b"', "'a\\'b'", '"a""b"', "'a''b'",
@@ -57,6 +61,19 @@ def single_mutations(slices):
         for ch in ".;@#=!":
             yield "illegal-char-glued", (i, ch), J(slices[:i] + [slices[i] + ch] + slices[i + 1:])
             yield "illegal-char-glued", (i, ch), J(slices[:i] + [ch + slices[i]] + slices[i + 1:])
+    # two neighbours written without the blank between them (the reference lexer decides what that text is: often still
+    # the same sentence - `{return` - sometimes another sentence, sometimes no sentence at all - `else ifx`, `weighted1`)
+    for i in range(n - 1):
+        yield "glue", i, J(slices[:i] + [slices[i] + slices[i + 1]] + slices[i + 2:])
+    # invisible characters: between tokens, glued to a token, inside a token
+    for i in range(n):
+        for ch in INVISIBLE:
+            tok = slices[i]
+            yield "invisible-char", (i, "between", ch), J(slices[:i] + [ch] + slices[i:])
+            yield "invisible-char", (i, "glued", ch), J(slices[:i] + [tok + ch] + slices[i + 1:])
+            if len(tok) > 1 and tok[:1] not in "\"'":
+                yield "invisible-char", (i, "inside", ch), J(slices[:i] + [tok[: len(tok) // 2] + ch + tok[len(tok) // 2:]] + slices[i + 1:])
+    yield "invisible-char", (0, "leading", "\ufeff"), "\ufeff" + J(slices)
     for p in PREFIX_JUNK:
         yield "prefix-junk", p, p + " " + J(slices)
     for s in SUFFIX_JUNK:
@@ -87,9 +104,13 @@ def random_mutation(rnd, slices, other=None):
     if r < 0.7:
         s.insert(rnd.randint(0, n), rnd.choice(ILLEGAL))
         return "illegal-char", s
+    if r < 0.73 and n > 1:
+        i = rnd.randrange(n - 1)
+        s[i: i + 2] = [s[i] + s[i + 1]]
+        return "glue", s
     if r < 0.76:
         i = rnd.randrange(n)
-        ch = rnd.choice(ILLEGAL)
+        ch = rnd.choice(ILLEGAL + INVISIBLE)
         s[i] = s[i] + ch if rnd.random() < 0.5 else ch + s[i]
         return "illegal-char-glued", s
     if r < 0.82:
